@@ -209,8 +209,8 @@ def d3_alignment(ctx, mod):
         gt = [s for s in walk(lp) if isinstance(s, ast.Assign) and unparse(s.targets[0]) == 'Gt']
         ctx.check(rule, key + '-same-t', len(gt) == 1 and unparse(gt[0].value) == '_get_mat_at_t(%s)' % unparse(lp.target), 'the matrix of the loop timeslice is solved', 'Gt = %s' % [unparse(s.value) for s in gt])
         sv = [c for c in walk(lp) if isinstance(c, ast.Call) and call_name(c) == '_GEVP_solver']
-        ok = len(sv) == 1 and [unparse(a) for a in sv[0].args] == ['Gt', 'G0']
-        ctx.check(rule, key + '-solver-args', ok, 'solver called with (G(t), G(t0))', 'solver call %s' % [unparse(c) for c in sv])
+        ok = len(sv) == 1 and [unparse(a) for a in sv[0].args] == ['Gt', 'G0'] and unparse(kwarg(sv[0], 'method')) == 'method' and unparse(kwarg(sv[0], 'chol_inv')) == 'chol_inv'
+        ctx.check(rule, key + '-solver-args', ok, 'solver called with (G(t), G(t0)), the chosen method and the inverse Cholesky factor of G(t0)', 'solver call %s' % [unparse(c) for c in sv])
     g0 = find_def(f, 'G0')
     ctx.check(rule, 'correlators.py:Corr.GEVP#G0', len(g0) == 1 and unparse(g0[0].value) == '_get_mat_at_t(t0)', 'G0 = G(t0)', 'G0 = %s' % [unparse(s.value) for s in g0])
     rv = [s for s in statements(f) if isinstance(s, ast.Assign) and unparse(s.targets[0]) == 'reordered_vecs' and isinstance(s.value, ast.ListComp)]
@@ -386,6 +386,19 @@ def d6_pencil(ctx):
     ctx.check(rule, 'mpm.py:matrix_pencil_method#default-p', len(pd) == 1 and unparse(pd[0].value) == 'max(n_data // 2, k)', 'default p = max(N/2, k)', 'p = %s' % [unparse(s.value) for s in pd])
 
 
+def d7_method_choice(ctx, mod):
+    from .. import pat
+    rule = 'C16-D3'
+    f = mod.func('Corr.GEVP')
+    missing = pat.has_all(f, ["$M = kwargs.get('method', 'eigh')", "$L = linalg.cholesky($G)", "$LI = linalg.inv($L)", "$M = 'cholesky'"])
+    ctx.check(rule, 'correlators.py:Corr.GEVP#method', not missing, "default method eigh; with propagated errors the Cholesky solution with L = cholesky(G(t0)), L^-1 = inv(L)", 'missing %s' % missing, mod.loc(f))
+    missing = pat.has_all(f, ["$L = np.linalg.cholesky(_get_mat_at_t(t0, vector_obs=False))", "$LI = np.linalg.inv($L)", '$LI = None'])
+    ctx.check(rule, 'correlators.py:Corr.GEVP#positivity-check', not missing, 'G(t0) is Cholesky decomposed (positive definiteness), the inverse factor is prepared for method=cholesky', 'missing %s' % missing, mod.loc(f))
+    sv = [c for c in walk(f) if isinstance(c, ast.Call) and call_name(c) == '_GEVP_solver']
+    good = pat.find_all(f, '_GEVP_solver(Gt, G0, method=method, chol_inv=chol_inv)', modulo_defs=False)
+    ctx.check(rule, 'correlators.py:Corr.GEVP#solver-calls', len(sv) == 2 and len(good) == 2, 'both solver calls pass (G(t), G(t0), method, chol_inv)', 'solver calls %s' % [unparse(c) for c in sv], mod.loc(f))
+
+
 def run(ctx):
     ctx.rule('C16-D0', 'null safety of the GEVP family')
     ctx.rule('C16-D1', 'solver branches: rows = vectors, descending order, one reversal; Cholesky algebra')
@@ -401,6 +414,7 @@ def run(ctx):
     ctx.guarded('C16-D2', 'correlators.py:Corr.GEVP@symmetrised', d2_symmetrised, ctx, mod)
     ctx.guarded('C16-D3', 'correlators.py:Corr.GEVP@alignment', d3_alignment, ctx, mod)
     ctx.guarded('C16-D4', 'correlators.py:Corr.GEVP@validation', d4_validation, ctx, mod)
+    ctx.guarded('C16-D3', 'correlators.py:Corr.GEVP@method', d7_method_choice, ctx, mod)
     ctx.guarded('C16-D5', 'correlators.py@projections', d5_projections, ctx, mod)
     ctx.guarded('C16-D6', 'mpm.py', d6_pencil, ctx)
 
